@@ -254,11 +254,19 @@ def r3(run: Run, src, g):
     loc = loc_of(fi.module.path, fn)
     calls = [n for n in ast.walk(fn) if isinstance(n, ast.Call) and isinstance(n.func, ast.Attribute) and
              isinstance(n.func.value, ast.Name) and n.func.value.id == 're']
+    deferred = None
     if len(calls) != 1:
-        raise AnalysisError('C05.R3', 'expected one re.* call in RegexpBaseToken.get')
+        # the pattern may be built (compiled) in another method of the class: the wrapping and the flags are decided there, the
+        # group indexing of `get` is then outside the modelled findall form (reported as inconclusive after the flags)
+        calls = [n for m in rb.methods.values() for n in ast.walk(m.node) if isinstance(n, ast.Call) and isinstance(n.func, ast.Attribute)
+                 and isinstance(n.func.value, ast.Name) and n.func.value.id == 're' and n.args and isinstance(n.args[0], ast.JoinedStr)]
+        if len(calls) != 1:
+            raise AnalysisError('C05.R3', 'expected one re.* call that builds the lexer pattern in RegexpBaseToken')
+        deferred = 'the lexer pattern is compiled outside RegexpBaseToken.get: the group indexing of get is not the modelled findall form'
     call = calls[0]
-    run.check(call.func.attr == 'findall', 'C05.R3', 'RegexpBaseToken.get/matcher', 'not-findall',
-              f're.{call.func.attr} is used; the group indexing below is only modelled for re.findall', fact='re.findall', loc=loc)
+    if deferred is None:
+        run.check(call.func.attr == 'findall', 'C05.R3', 'RegexpBaseToken.get/matcher', 'not-findall',
+                  f're.{call.func.attr} is used; the group indexing below is only modelled for re.findall', fact='re.findall', loc=loc)
     pat = call.args[0] if call.args else None
     # the pattern must be ^( regexp )( last_match_regexp )$
     shape_ok = False
@@ -278,7 +286,14 @@ def r3(run: Run, src, g):
                   f'the anchors or the two capture groups', fact=shape, loc=loc)
     else:
         raise AnalysisError('C05.R3', 'lexer pattern is not an f-string')
-    flags = call.args[2] if len(call.args) > 2 else next((k.value for k in call.keywords if k.arg == 'flags'), None)
+    fpos = 1 if call.func.attr == 'compile' else 2
+    flags = call.args[fpos] if len(call.args) > fpos else next((k.value for k in call.keywords if k.arg == 'flags'), None)
+    # a flags value kept in a class attribute (cls._FLAGS = re.M | re.S)
+    if isinstance(flags, ast.Attribute) and isinstance(flags.value, ast.Name) and flags.value.id in ('cls', 'self', rb.name):
+        attr_expr, _owner = src.find_attr(rb, flags.attr)
+        if attr_expr is None:
+            raise AnalysisError('C05.R3', f'regex flags `{ast.unparse(flags)}` cannot be resolved')
+        flags = attr_expr
     if flags is not None:
         names = {n.attr for n in ast.walk(flags) if isinstance(n, ast.Attribute)} | \
                 {n.id for n in ast.walk(flags) if isinstance(n, ast.Name)}
@@ -290,6 +305,8 @@ def r3(run: Run, src, g):
             raise AnalysisError('C05.R3', f'regex flags {sorted(names)} are not modelled')
     else:
         run.ok('C05.R3', 'RegexpBaseToken.get/flags', 'no flags: `$` only matches at the end of the text', loc=loc)
+    if deferred is not None:
+        raise AnalysisError('C05.R3', deferred)
     # the remainder handed back is the last group; the value is a slice of the same findall row
     rets = [n for n in ast.walk(fn) if isinstance(n, ast.Return) and isinstance(n.value, ast.Tuple) and len(n.value.elts) == 2]
     good = [r for r in rets if not (isinstance(r.value.elts[0], ast.Constant) and r.value.elts[0].value is None)]
@@ -514,6 +531,30 @@ def run(run: Run):
     run.guard('C05.R4', r4, run, src, g, em)
     run.guard('C05.R5', r5, run, src, g)
     run.guard('C05.R6', r6, run, src, g, em)
+    # the lexer and the matcher keep no state between two parses: a memo or a table that survives a parse (in particular one
+    # that is not cleared when a parse is rejected) splices parts of an earlier formula into a later one
+    run.rule('C05.R7', 'lexer and matcher keep no state between parses (shared with C09.R4)')
+
+    def r7(run):
+        from ..callgraph import get_callgraph
+        from . import c09
+        sub = Run('tmp', run.tier, run.seed, quiet=True)
+        c09.r3_r4(sub, src, get_callgraph(src))
+        n = 0
+        for o in sub.obligations:
+            if o['rule'] == 'C09.R4' and o['verdict'] == 'holds' and ('tokens' in o['loc'] or 'lexer' in o['loc'] or 'ast_builder' in o['loc']):
+                n += 1
+                run.ok('C05.R7', o['construct'], o['fact'], loc=o['loc'])
+        for f in sub.findings:
+            if f['rule'] == 'C09.R4' and ('tokens' in f['loc'] or 'lexer' in f['loc'] or 'ast_builder' in f['loc']):
+                n += 1
+                run.bad('C05.R7', f['construct'], f['sub'], f['message'], loc=f['loc'], facts=f['facts'])
+        for e in sub.errors:
+            run.errors.append(f'C05.R7 <- {e}')
+        if n == 0:
+            raise AnalysisError('C05.R7', 'no global-state site of the token classes was analysed')
+    run.guard('C05.R7', r7, run)
+    run.floor('C05.R7', 3)
     run.floor('C05.R1', 4)
     run.floor('C05.R2', 60)
     run.floor('C05.R3', 60)
